@@ -160,6 +160,8 @@ def pairs(seed, n):
           ("%H %E*z", "10 +01:02:"), ("%H %Ez", "10 +01:"), ("%H%Ez:", "10+01:"), ("%H %Ezx", "10 +01:3x"),
           ("%Y %U %a", "2017 01 Sun"), ("%Y %W %a", "2018 53 Mon"), ("%Y-W%U-%a %H:%M:%S", "2021-W10-Tue 08:30:15"), ("%A, week %U of %Y", "Friday, week 00 of 2024"),
           ("%a %U %Y", "Sat 52 2022"), ("%Y %W %A", "2024 01 Monday"), ("%Y %U %a", "2023 00 Sun"), ("%Y %U %a", "2023 01 Sun"), ("%Y %W %a %u", "2018 11 Wed 3"),
+          ("%T", "00:00:61"), ("%T", "23:59:60"), ("%Y-%m-%d %T", "2016-12-31 23:59:60"), ("%OS", "61"), ("%OS", "60"), ("%c", "Thu Jan  1 00:00:61 1970"), ("%T.%E*f", "12:30:60.75"),
+          ("%R:%S", "24:00:00"), ("%T", "24:00:00"), ("%D", "13/01/20"), ("%D", "02/30/20"), ("%F", "2020-02-30"),
           ("%Z %z", "UTC +0100"), ("%z %Z", "+0100 PST"), ("%Z", "Europe/Paris"), ("%Z", "A B")]
     out += [(a.encode(), b.encode()) for a, b in D]
     for _ in range(n // 10):     # unstructured pairs
